@@ -1,6 +1,6 @@
 #!/bin/bash
 # Re-confirm every seeded change against /repo HEAD: patch applies, 52 tests pass with it, demo fails with it and passes
-# without it, and the check(s) that are recorded as catching it still do.  Updates seeded/<name>/confirm.json and meta.json.
+# without it, and the check(s) that are recorded as catching it still do (each check is abandoned at its first violation: VERIF_FAST_FAIL).  Updates seeded/<name>/confirm.json and meta.json.
 cd /verif
 for D in seeded/*/; do
   N=$(basename $D)
@@ -20,7 +20,7 @@ print(','.join([own]+[x for x in c if x!=own][:1]) if own in c else ','.join(c[:
   run /venv/bin/python /verif/$D/demo.py >/dev/null 2>&1; MUT=$?
   RESULT=""
   for C in ${CHK//,/ }; do
-    OUT=$(VERIF_REPO=$SCR VERIF_EVIDENCE_DIR=/tmp/ev_rv_$N nice -n 5 timeout 1800 ./check $C quick 2>&1); RC=$?
+    OUT=$(VERIF_FAST_FAIL=1 VERIF_REPO=$SCR VERIF_EVIDENCE_DIR=/tmp/ev_rv_$N nice -n 5 timeout 1800 ./check $C quick 2>&1); RC=$?
     RESULT="$RESULT $C:$RC"
   done
   echo "$N: demo clean=$CLEAN mutated=$MUT tests=[$TESTS] checks=[$RESULT ]"
